@@ -762,6 +762,73 @@ compare_ll(const std::string& scen, int T, const LLResult& ref, const LLResult& 
     }
 }
 
+// The reduction of the per-thread log-likelihood terms happens once per viewgram: a per-thread accumulator that became shared loses a
+// term only if two threads finish a viewgram within nanoseconds of each other.  Such a window is reached by repetition, not by delays:
+// a small data set (a few bins per viewgram), one objective function, the value asked many times without perturbation.
+static void
+value_hammer(vh::Rng& rng, int T)
+{
+  Problem p;
+  p.tof = rng.range(0, 3) == 0;
+  const int N = 2 * rng.range(6, 8);
+  shared_ptr<Scanner> scanner = vh::make_scanner(N, 1, p.tof ? 5 : -1);
+  p.pdi = vh::make_pdi(scanner, 1, 0, N / 2, 3, false, p.tof ? 1 : 0);
+  p.image = vh::make_image(*p.pdi, 1.F, 5, 1);
+  p.exam.reset(new ExamInfo);
+  p.exam->imaging_modality = ImagingModality::PT;
+  p.flags = rng.range(0, 1) * 4; // few symmetries: as many work items as views
+  Image& x = *p.image;
+  fill_image(x, rng, true);
+  shared_ptr<ProjData> y(new ProjDataInMemory(p.exam, p.pdi));
+  fill_data(*y, rng, 0, 6);
+  const int repeats = 150;
+  auto run = [&](int threads, std::vector<double>& values) {
+    stir::set_num_threads(threads);
+    shared_ptr<ProjMatrixByBinUsingRayTracing> pm = make_matrix(p, true);
+    shared_ptr<ProjectorByBinPair> pair(new ProjectorByBinPairUsingProjMatrixByBin(pm));
+    LLObj obj;
+    obj.set_proj_data_sptr(y);
+    obj.set_projector_pair_sptr(pair);
+    obj.set_num_subsets(1);
+    obj.set_recompute_sensitivity(true);
+    obj.set_use_subset_sensitivities(true);
+    shared_ptr<Image> target(x.clone());
+    if (obj.set_up(target) != Succeeded::yes)
+      return false;
+    for (int k = 0; k < (threads == 1 ? 1 : repeats); ++k)
+      values.push_back(obj.compute_objective_function(x));
+    return true;
+  };
+  std::vector<double> ref, par;
+  ++oracle_checks;
+  try
+    {
+      if (!run(1, ref))
+        {
+          fail("loglik_full: single-thread reference run (small data set) failed");
+          return;
+        }
+      if (!run(T, par))
+        {
+          fail("loglik_full: set_up with " + std::to_string(T) + " threads failed where the single-thread run succeeded (small data set)");
+          return;
+        }
+    }
+  catch (std::exception& e)
+    {
+      fail(std::string("loglik_full: exception (small data set, repeated value), threads=") + std::to_string(T) + ": " + e.what());
+      return;
+    }
+  stir::set_num_threads(1);
+  for (std::size_t k = 0; k < par.size(); ++k)
+    if (!(std::fabs(par[k] - ref[0]) <= 1e-6 * std::fabs(ref[0]) + 1e-9))
+      {
+        fail("loglik_full: repetition " + std::to_string(k) + " of the log-likelihood value on a small data set with " + std::to_string(T) + " threads: " + vh::hex(par[k])
+             + " vs single-thread " + vh::hex(ref[0]));
+        break;
+      }
+}
+
 // ---------------------------------------------------------------- scenario: loglik_full
 static void
 scenario_loglik_full(vh::Rng& rng, int T)
@@ -802,6 +869,7 @@ scenario_loglik_full(vh::Rng& rng, int T)
     }
   LLResult par = run_ll(p, c, y, add, norm, T, true, "loglik_full");
   compare_ll("loglik_full", T, ref, par);
+  value_hammer(rng, T);
 }
 
 // ---------------------------------------------------------------- scenario: projdata_stream
@@ -1228,7 +1296,7 @@ scenario_scatter(vh::Rng& rng, int T)
       }
     return o;
   };
-  for (int rep = 0; rep < 2; ++rep)
+  for (int rep = 0; rep < 3; ++rep)
     for (int cache = 0; cache < 2; ++cache)
       {
         const Out ref = run(1, cache, false);
